@@ -126,7 +126,8 @@ DeleteFold(tree, ents, k, gone, acc) ==
   IF k > Len(ents) THEN [gone |-> gone, deleted |-> acc.deleted, failed |-> acc.failed]
   ELSE LET e == ents[k]
            isRealDir == tree[e.node].kind = "d"
-           ok == ~isRealDir \/ (Children(tree, e.node) \subseteq gone)
+           \* (a directory reached as "." or ".." - a starting point spelled d/. or d/x/.. - cannot be removed under that name)
+           ok == (~isRealDir \/ (Children(tree, e.node) \subseteq gone)) /\ NameOf(e.path) \notin {<<46>>, <<46, 46>>}
        IN IF ok THEN DeleteFold(tree, ents, k + 1, gone \cup {e.node}, [acc EXCEPT !.deleted = Append(@, e.path)])
           ELSE DeleteFold(tree, ents, k + 1, gone, [acc EXCEPT !.failed = Append(@, e.path)])
 
